@@ -18,7 +18,9 @@ from ..common import enc, ask, call
 LEVEL = "proof"
 RULE = ("pairs of connected simple graphs from one PRNG: paths, cycles, stars, cliques, complete bipartite, grids, "
         "lollipops, random trees, G(n,p) conditioned on connectivity (p from 0.15 to 0.9), 1..9 vertices (quick) / 1..40 "
-        "(thorough), equal and unequal sizes, isomorphic pairs by random relabelling, both argument orders; int8 (as "
+        "(thorough), plus in both tiers graphs with 66..127 vertices and diameter >= 65 and graphs with 128..200 vertices "
+        "(paths incl. diameter exactly 127, brooms, stars, cycles, trees, G(n,p)) where int8 arithmetic would overflow; equal "
+        "and unequal sizes, isomorphic pairs by random relabelling, both argument orders; int8 (as "
         "produced by the real pipeline) and int16/int64 matrices; mapping_sample_size_order from {(0,0),(1,1),(.5,1),"
         "(1,0),(0,1),(-1,-1),(1.5,.5),(2,0)}; the generator state is either seeded NumPy or adversarial draws "
         "(identity/reversed/random permutations, first image 0 / last / random); non-trivial = both graphs have >= 3 "
@@ -326,13 +328,15 @@ def search_failing_input(ctx, what, case, corr, A=None, B=None, order=None, extr
         if r.random() < 0.2:
             Y = relabel(r, X)
         cands.append((X, Y, r.choice(ORDERS), r.randrange(2 ** 31)))
-    big = []
-    for k, nn in (("star", 128), ("path", 128), ("cycle", 150), ("star", 200)):
-        X = gen_graph(r, nn, k)[1]
-        big.append((X, relabel(r, X), (0.0, 0.0), r.randrange(2 ** 31)))
-    for X, Y, o, s in big:                          # isomorphic by construction: 2*mGH = 0 without any search
-        ok, det = bracket_on_real_code(X, Y, o, s, mgh2=0)
-        if not (ok and det.get("lb") == 0.0):
+    if not hasattr(ctx, "_c05_big"):                 # evaluated once per run: these do not depend on the disagreement
+        ctx._c05_big = []
+        for k, nn in (("star", 128), ("path", 100), ("path", 128), ("cycle", 150)):
+            X = gen_graph(r, nn, k)[1]
+            Y, o, s = relabel(r, X), (0.0, 0.0), r.randrange(2 ** 31)
+            ok, det = bracket_on_real_code(X, Y, o, s, mgh2=0)   # isomorphic by construction: 2*mGH = 0 without any search
+            ctx._c05_big.append((ok and det.get("lb") == 0.0, det, X, Y, o, s))
+    for ok, det, X, Y, o, s in ctx._c05_big:
+        if not ok:
             ctx.violation("%s; the property fails on the real code for two isomorphic %d-vertex graphs: %r" % (what, len(X), det),
                           {"AG": X.tolist(), "AH": Y.tolist(), "order": list(o), "np_seed": s, "iso": True}, found_input=True,
                           correspondence=corr, detail=det)
@@ -894,29 +898,30 @@ def replay(ctx, rep):
 MANIFEST = {
     "text": "Proof: Lean theorems (Props/C05.lean) about a line-by-line model of estimate/find_lb/find_ub over Nat matrices, against "
             "the algorithm-independent definition mGH = 1/2 max(min_f dis f, min_g dis g) over all total maps, for distance matrices "
-            "of every size, every value of the wrapped sort-key product, every list of permutations and first images (hence every "
+            "of every size, every value of the sort-key product, every list of permutations and first images (hence every "
             "generator state and every mapping_sample_size_order). ALL FULL STRENGTH, none _partial: trivial_lb_sound (diameter gap, "
-            "size collision), curvature_is_principal (kept rows form a principal submatrix with entries >= d whatever the sort keys), "
-            "thmA, thmB_row, greedy_complete (+ greedy_complete_list; [P2] discharged: a `false` answer of the sliding-window greedy "
-            "yields a Hall violator, proved by a loop invariant, and a Hall violator excludes every injection), find_lb_sound, "
+            "size collision), curvature_is_principal (the returned K is a principal submatrix with entries >= d whatever the sort "
+            "keys), thmA, thmB_row, greedy_complete (+ greedy_complete_list; [P2] discharged: a `false` answer of the sliding-window "
+            "greedy yields a Hall violator, proved by a loop invariant, and a Hall violator excludes every injection), find_lb_sound, "
             "mapping_distortion_exact (construct_mapping returns a total map and exactly its distortion), "
             "find_ub_of_min_distortion_sound, find_ub_sound, find_ub_total/estimate_total (no failure with >= 1 permutation), "
             "brackets (lower <= mGH <= upper, both in (1/2)N; brackets_upper is its unconditional half), iso_lb_zero, "
-            "exhaustive_oracle_correct (the driver's mgh.spec search equals the specification), "
-            "mGH2_eq_zero_of_isometric, and feasibility_fuel_irrelevant / curvature_fuel_irrelevant (the recursion bounds the model "
-            "adds to the two while-loops are never exhausted). The model is tied to the code on every run: every anchored function "
-            "is called directly on BFS metrics of generated connected graphs with all np.random draws recorded and replayed into the "
-            "model, integer outputs compared exactly (find_lb, the curvature submatrix, distributions, unique maxima, feasibility, "
-            "construct_mapping, find_ub_of_min_distortion incl. the number of mappings built and permutations drawn, find_ub, estimate, "
-            "gromov_hausdorff).",
+            "mGH2_eq_zero_of_isometric, exhaustive_oracle_correct (the driver's mgh.spec search equals the specification), "
+            "feasibility_fuel_irrelevant / curvature_fuel_irrelevant (the recursion bounds the model adds to the two while-loops are "
+            "never exhausted), and the regression witnesses old_key_product_counterexample / old_feasibility_counterexample for the "
+            "int8 defect repaired by /repo a42e80a. The model is tied to the code on every run: every anchored function "
+            "is called directly on BFS metrics of generated connected graphs (up to 200 vertices) with all np.random draws recorded "
+            "and replayed into the model, integer outputs compared exactly (find_lb, the curvature submatrix, distributions, unique "
+            "maxima, feasibility, construct_mapping, find_ub_of_min_distortion incl. the number of mappings built and permutations "
+            "drawn, find_ub, estimate, gromov_hausdorff); an exception of the real code on such inputs is reported as a failing input.",
     "note": "Trusted: Lean kernel + Mathlib, axioms propext/Classical.choice/Quot.sound; the correspondence harness and its RNG capture; "
-            "NumPy semantics transcribed in the model (argmin = first minimum, np.unique(axis=0), np.delete, masked sums, int8 "
-            "wrap-around of len(K)*diam_X); np.random.permutation/choice contracts (checked on every recorded draw). [T] only: the "
+            "NumPy semantics transcribed in the model (argmin = first minimum, np.unique(axis=0), np.delete, masked sums); exact "
+            "(non-wrapping) integer arithmetic in the code, which is what the repair a42e80a establishes and the graphs with 66..200 "
+            "vertices exercise; np.random.permutation/choice contracts (checked on every recorded draw). [T] only: the "
             "bracket, half-integrality and iso-lb-0 evaluated on the real code against the exhaustive 2*mGH for |X|,|Y| <= 6 (Lean "
-            "`mgh.spec` cross-checked with an independent NumPy brute force), and the greedy feasibility against exhaustive injection "
-            "search on all small distributions (thorough: max_d <= 5, |v| <= 6, |u| <= 7). The exhaustive mGH oracle is itself proved equal to the Mathlib "
-            "specification (exhaustive_oracle_correct); the injection-search oracle is cross-checked with a Python matching instead. Graph-format handling in front of "
-            "estimate() is C17.",
+            "`mgh.spec`, proved equal to the specification and cross-checked with an independent NumPy brute force), and the greedy "
+            "feasibility against exhaustive injection search on all small distributions (thorough: max_d <= 5, |v| <= 6, |u| <= 7; the "
+            "injection-search oracle is cross-checked with a Python matching). Graph-format handling in front of estimate() is C17.",
     "technique": "Lean 4 theorems over a hand-written model with the RNG as an explicit input + differential correspondence "
                  "with recorded np.random draws + exhaustive oracle for small graphs",
 }
